@@ -7,6 +7,7 @@ import io
 
 PART = "attrs"
 KNOWN_XDMA = "xdma_system_type_print"
+EXT_OPTS = ["maxpool_ext", "memset_ext", "t", "add_ext", "add_ext_long", "rescale_down_ext", "rescale_up_ext"]
 
 
 def _mods():
@@ -21,6 +22,8 @@ def gen_config(rng):
     streamers = []
     for _ in range(n):
         opts = [o for o in ["a", "c", "bm", "b"] if rng.random() < 0.3]
+        if rng.random() < 0.25:      # xDMA extension options (the other keys of STREAMER_OPT_MAP)
+            opts += [o for o in EXT_OPTS if rng.random() < 0.3]
         rng.shuffle(opts)
         streamers.append({
             "type": rng.choice(["r", "w"]),
@@ -33,7 +36,8 @@ def gen_config(rng):
 
 def build(desc):
     st, snax = _mods()
-    optmap = {c.name: c for c in (st.HasAddressRemap, st.HasChannelMask, st.HasByteMask, st.HasBroadcast)}
+    from snaxc.accelerators.streamers.extensions import STREAMER_OPT_MAP
+    optmap = dict(STREAMER_OPT_MAP)
     ss = [st.Streamer(st.StreamerType(s["type"]), s["temp"], s["spat"], [optmap[o]() for o in s["opts"]]) for s in desc["streamers"]]
     return snax.StreamerConfigurationAttr(st.StreamerConfiguration(ss, st.StreamerSystemType(desc["system"])))
 
@@ -80,6 +84,11 @@ def l2(ctx, deep):
     rng = ctx.rng
     n = ctx.n(400, 5000) * (3 if deep else 1)
     fails = []
+    # the option alphabet of Model/C19Text.v (sopt) and of this generator must be the key set of STREAMER_OPT_MAP
+    from snaxc.accelerators.streamers.extensions import STREAMER_OPT_MAP
+    if sorted(STREAMER_OPT_MAP) != sorted(["a", "c", "bm", "b"] + EXT_OPTS):
+        fails.append({"part": PART, "what": "STREAMER_OPT_MAP differs from the modelled option alphabet",
+                      "input": {"opt_names": sorted(STREAMER_OPT_MAP)}, "detail": {"modelled": sorted(["a", "c", "bm", "b"] + EXT_OPTS)}, "klass": None})
     for _ in range(n):
         d = gen_config(rng)
         ctx.count({"part": PART, "L2": d}, len(d["streamers"]) > 1 or bool(d["streamers"][0]["opts"]), f"cfg{d}", "L2:StreamerConfigurationAttr")
@@ -93,6 +102,10 @@ def replay_known(ctx, entry):
 
 
 def replay(ctx, f):
+    if "opt_names" in f["input"]:
+        from snaxc.accelerators.streamers.extensions import STREAMER_OPT_MAP
+        print("STREAMER_OPT_MAP keys:", sorted(STREAMER_OPT_MAP), "modelled:", sorted(["a", "c", "bm", "b"] + EXT_OPTS))
+        return [f] if sorted(STREAMER_OPT_MAP) != sorted(["a", "c", "bm", "b"] + EXT_OPTS) else []
     res = check_config(f["input"])
     print("config:", f["input"])
     for r in res:
